@@ -30,6 +30,10 @@ CHECKS = {
                 text="Tree-shaped inputs (precondition computed from the registry) x frameworks; flat completeness on arbitrary graphs.", note=TB, ref="4 C12"),
     "C13": dict(category="exploration", technique="runtime monitoring: independent dict-vs-model decision per object occurrence compared with the annotations of the loaded module (library path and real CLI subprocesses)",
                 text="Inputs x field-name lists x regex lists incl. anchor-sensitive alternations through the CLI.", note=TB, ref="4 C13"),
+    "C14": dict(category="exploration", technique="runtime monitoring: call histories (incl. sys.monitoring failpoints) in one process, every output compared with the same call run alone in a pristine forked process; state digest steers the workload",
+                text="Histories of 2-4 operations incl. injected mid-render failures, re-renders, direct generator calls and implicit-registry generations.", note=TB, ref="4 C14"),
+    "C15": dict(category="exploration", technique="runtime monitoring: real threads under 1us switch interval with seeded sys.monitoring LINE yield injection; per-thread output vs solo output; overlap of render windows observed",
+                text="Single calls from a fresh worker thread and schedules of 2-8 concurrent pipelines; overlapping windows must actually be observed.", note=TB + " Schedules are sampled, not enumerated.", ref="4 C15"),
 }
 NOT_YET = {}
 props = [json.loads(l) for l in open(os.path.join(HERE, "properties.jsonl"))]
